@@ -5,9 +5,10 @@ L6 — the JMS-like messaging layer over AMQP 0-9-1 (`amqp_0_9_1_messaging.py` a
 
 * address strings: `Destination.parse_address` (split on `;` and `/`, `json.loads` of the options map,
   node / link / x-declare / x-bindings / x-subscribe) and what `Consumer.open` +
-  `set_message_listener` / `Producer.open` then ask of the broker: the list of declarations
-  (`Op`), in order, on the session channel (the passive existence probe on a temporary channel is an
-  input of the model — `Env.exchanges` — not a declaration);
+  `set_message_listener` / `Producer.open` then ask of the broker: the complete list of frames
+  (`Op`), in order — the prefetch of the Consumer constructor, the *passive* existence probe on a
+  temporary channel (its answer is an input of the model — `Env.exchanges`), the declarations, bindings
+  and the subscription on the session channel — and what those frames can create (`Entity`);
 * `Message` ↔ `BasicProperties` (`Producer.send`, `Consumer.message_listener`), the expiration clamp,
   the subject → routing-key rule and the default exchange's routing by queue name;
 * `Message.acknowledge` / `Session.acknowledge` over the channel's outstanding delivery tags;
@@ -193,13 +194,53 @@ def parseAddress (addr : Str) : Except AErr Dest :=
 
 /-! ### what is asked of the broker -/
 
-/-- one declaration on the session channel; flag and argument values are passed through as given -/
+/-- one frame sent to the broker while a Consumer / Producer is set up; flag and argument values are passed
+through as given.  Everything is sent on the session channel except `probe`:
+* `probe x` — `exchange_declare(x, passive=True)` (every other argument at pika's default) on a temporary
+  channel that is closed afterwards: it asks whether the exchange exists and can create nothing;
+* `qos n` — `basic_qos(prefetch_count=n)` (prefetch size 0, not global);
+* `consume` — `basic_consume` without a consumer tag; `autoAck` is the session's flag. -/
 inductive Op where
-  | exchangeDeclare (exchange type passive durable autoDelete arguments : Json)
+  | probe (exchange : Str)
+  | qos (prefetch : Nat)
+  | exchangeDeclare (exchange type passive durable autoDelete internal arguments : Json)
   | queueDeclare (queue passive durable exclusive autoDelete arguments : Json)
   | queueBind (queue exchange key arguments : Json)
-  | consume (queue exclusive arguments : Json)
+  | consume (queue autoAck exclusive arguments : Json)
   deriving Repr, DecidableEq
+
+/-- the channel a frame is sent on -/
+inductive Channel where
+  | session | temp
+  deriving Repr, DecidableEq
+
+def Op.channel : Op → Channel
+  | .probe _ => .temp
+  | _ => .session
+
+/-- what the broker holds after a frame (AMQP 0-9-1: a passive declaration creates nothing) -/
+inductive Entity where
+  | exchange (name type durable autoDelete internal arguments : Json)
+  | queue (name durable exclusive autoDelete arguments : Json)
+  | binding (queue exchange key arguments : Json)
+  | subscription (queue autoAck exclusive arguments : Json)
+  deriving Repr, DecidableEq
+
+def Op.creates : Op → List Entity
+  | .probe _ => []
+  | .qos _ => []
+  | .exchangeDeclare e t p d a i g => if p.truthy then [] else [.exchange e t d a i g]
+  | .queueDeclare q p d x a g => if p.truthy then [] else [.queue q d x a g]
+  | .queueBind q e k g => [.binding q e k g]
+  | .consume q k x g => [.subscription q k x g]
+
+/-- everything a list of frames can create, in order -/
+def created : List Op → List Entity
+  | [] => []
+  | op :: ops => op.creates ++ created ops
+
+/-- the prefetch every Consumer starts with ("Set default capacity/message prefetch to 500") -/
+def defaultCapacity : Nat := 500
 
 /-- the broker as the layers see it: which exchanges exist (the passive probe) and which name the
 server gives to a queue declared with the empty name -/
@@ -211,7 +252,7 @@ structure Env where
 def exchangeOp (d : Dict) : List Op :=
   if (dget d ['e', 'x', 'c', 'h', 'a', 'n', 'g', 'e']).truthy then
     [.exchangeDeclare (dget d ['e', 'x', 'c', 'h', 'a', 'n', 'g', 'e']) (dget d ['e', 'x', 'c', 'h', 'a', 'n', 'g', 'e', '-', 't', 'y', 'p', 'e']) (dget d ['p', 'a', 's', 's', 'i', 'v', 'e']) (dget d ['d', 'u', 'r', 'a', 'b', 'l', 'e'])
-      (dget d ['a', 'u', 't', 'o', '-', 'd', 'e', 'l', 'e', 't', 'e']) (dget d ['a', 'r', 'g', 'u', 'm', 'e', 'n', 't', 's'])]
+      (dget d ['a', 'u', 't', 'o', '-', 'd', 'e', 'l', 'e', 't', 'e']) (dget d ['i', 'n', 't', 'e', 'r', 'n', 'a', 'l']) (dget d ['a', 'r', 'g', 'u', 'm', 'e', 'n', 't', 's'])]
   else []
 
 /-- `binding["exchange"]`, `binding["queue"]` (KeyError when missing), `.get("key")`, `.get("arguments")` -/
@@ -228,8 +269,10 @@ def bindOps : List Json → Except AErr (List Op)
     | _, .error e => .error e
   | _ :: _ => .error .shape
 
-/-- `Consumer.open` followed by `set_message_listener`: the declarations, in order, and the queue
-consumed from -/
+/-- the existence probe: made exactly when the address names something -/
+def probeOp (dst : Dest) : List Op := if dst.name ≠ [] then [.probe dst.name] else []
+
+/-- the Consumer constructor + `Consumer.open`: the frames, in order, and the queue to consume from -/
 def consumerOpen (env : Env) (dst : Dest) : Except AErr (List Op × Str) := do
   -- the existence probe
   let exchange : Option Str ←
@@ -259,8 +302,17 @@ def consumerOpen (env : Env) (dst : Dest) : Except AErr (List Op × Str) := do
     (dget decl ['a', 'u', 't', 'o', '-', 'd', 'e', 'l', 'e', 't', 'e']) (dget decl ['a', 'r', 'g', 'u', 'm', 'e', 'n', 't', 's'])
   let actual := if qn = [] then env.anon else qn
   let binds ← bindOps bindings
-  pure (exchangeOp dst.declare ++ [qd] ++ binds ++
-    [.consume (.str actual) (dget dst.linkSubscribe ['e', 'x', 'c', 'l', 'u', 's', 'i', 'v', 'e']) (dget dst.linkSubscribe ['a', 'r', 'g', 'u', 'm', 'e', 'n', 't', 's'])], actual)
+  pure ([.qos defaultCapacity] ++ probeOp dst ++ exchangeOp dst.declare ++ [qd] ++ binds, actual)
+
+/-- `set_message_listener`: the subscription (`autoAck`: the session's flag — sessions are opened with
+`auto_ack=False`) -/
+def listenOp (dst : Dest) (queue : Str) : Op :=
+  .consume (.str queue) (.bool false) (dget dst.linkSubscribe ['e', 'x', 'c', 'l', 'u', 's', 'i', 'v', 'e']) (dget dst.linkSubscribe ['a', 'r', 'g', 'u', 'm', 'e', 'n', 't', 's'])
+
+/-- `consumer.capacity = n` between `open` and `set_message_listener` (what the engine does), or not at all -/
+def capacityOp : Option Nat → List Op
+  | some n => [.qos n]
+  | none => []
 
 /-- where a Producer publishes: the exchange and the default subject -/
 structure Target where
@@ -274,17 +326,23 @@ def producerOpen (env : Env) (dst : Dest) : List Op × Target :=
     if dst.name ≠ [] ∧ dst.name ∉ env.exchanges ∧ dget dst.declare ['e', 'x', 'c', 'h', 'a', 'n', 'g', 'e'] ≠ .str dst.name then
       ⟨[], dst.name⟩          -- "assume default direct exchange": the name becomes the subject
     else ⟨dst.name, dst.subject⟩
-  (exchangeOp dst.declare, tgt)
+  (probeOp dst ++ exchangeOp dst.declare, tgt)
 
 /-- the two transports; nothing in the model depends on it -/
 inductive Transport where
   | asyncio | blocking
   deriving Repr, DecidableEq
 
-def consumerOps (_t : Transport) (env : Env) (addr : Str) : Except AErr (List Op × Str) :=
-  match parseAddress addr with
-  | .ok d => consumerOpen env d
+/-- a parsed address as a Consumer: open, optionally `.capacity = n`, then `.set_message_listener(f)` -/
+def consumerOf (env : Env) (capacity : Option Nat) : Except AErr Dest → Except AErr (List Op × Str)
+  | .ok d => match consumerOpen env d with
+    | .ok (ops, q) => .ok (ops ++ capacityOp capacity ++ [listenOp d q], q)
+    | .error e => .error e
   | .error e => .error e
+
+/-- `session.consumer(addr)`, optionally `.capacity = n`, then `.set_message_listener(f)` -/
+def consumerOps (_t : Transport) (env : Env) (addr : Str) (capacity : Option Nat := none) : Except AErr (List Op × Str) :=
+  consumerOf env capacity (parseAddress addr)
 
 def producerOps (_t : Transport) (env : Env) (addr : Str) : Except AErr (List Op × Target) :=
   match parseAddress addr with
@@ -343,8 +401,9 @@ inductive Expiry where
   | text (s : Str)
   deriving Repr, DecidableEq
 
+/-- a `Message`; the defaults are those of `Message.__init__` (empty body, persistent, not mandatory) -/
 structure Msg where
-  body : Str
+  body : Str := []
   properties : Dict            -- application properties (carries the subject)
   contentType : Json := .null
   contentEncoding : Json := .null
@@ -495,6 +554,11 @@ def deliver (_t : Transport) (f : Frame) (tag : Nat) (redelivered : Bool) : Msg 
     messageId := f.props.messageId, timestamp := f.props.timestamp, type := f.props.type,
     userId := f.props.userId, appId := f.props.appId, clusterId := f.props.clusterId, tag := tag }
 
+/-- `Producer.return_callback`: the Message built from a `Basic.Return` — the broker hands an unroutable
+mandatory message back with the properties and body it was published with; its delivery tag is 0
+("returned Messages should not be acknowledged") -/
+def returned (t : Transport) (f : Frame) : Msg := deliver t f 0 false
+
 /-- the request `TaskDispatcher.execute_task` builds for an rpcmessage function (task_dispatcher.py, "Actually
 invoke the Task"): subject = the function's name, reply-to = this instance's reply queue, correlation id =
 the id of the Task state's event (with the resource suffix, if any), expiration = the state's timeout in ms -/
@@ -510,6 +574,11 @@ def routeDefault (queues : List Str) (routingKey : Json) : List Str :=
   match routingKey with
   | .str k => if k ∈ queues then [k] else []
   | _ => []
+
+/-- a publish on the default exchange comes back (`Basic.Return`) when it asked to (`mandatory`) and no
+queue bears the routing key -/
+def isReturned (queues : List Str) (f : Frame) : Bool :=
+  f.mandatory && (routeDefault queues f.routingKey).isEmpty
 
 /-! ### acknowledgement -/
 
